@@ -1,4 +1,4 @@
-(* Example programs (annotated ASTs) used by the non-vacuity and sharpness examples of Props/C01_core.v.
+(* Example programs (annotated ASTs) used by the non-vacuity and sharpness examples of Props/C01.v.
    Definitions only. *)
 From P2 Require Import Base.Prelude Sem.Num Sem.Syntax Sem.Ops Sem.Lib Sem.Ref Sem.Gen Sem.Sim.
 Local Open Scope N_scope.
